@@ -7,7 +7,7 @@ XRec(q) == [kind |-> "fieldx", prog |-> q]
 DRec(p) == [kind |-> "default", prog |-> p]
 URec(p) == [kind |-> "update", prog |-> p, vals |-> SetToSeq({SetToSeq(v) : v \in Valuations})]
 ASSUME \A p \in UProgs, nz \in Valuations, f \in AllUFields : Must(p, f, nz) \in {"open", Oper(p, f, nz)}
-ASSUME ndJsonSerialize(ScenOut, SetToSeq({FRec(p) : p \in Progs}) \o SetToSeq({ARec(a) : a \in AccProgs}) \o SetToSeq({XRec(q) : q \in XProgs}) \o SetToSeq({URec(p) : p \in UProgs}) \o SetToSeq({DRec(p) : p \in {q \in DProgs : DValid(q)}}) \o SetToSeq({[kind |-> "update-cat", prog |-> p] : p \in CatProgs}) \o <<[kind |-> "default-rebuild", prog |-> [x |-> "rebuild"]], [kind |-> "update-iface", prog |-> [x |-> "iface"]], [kind |-> "default-list", prog |-> [x |-> "list"]], [kind |-> "default-update-rec", prog |-> [x |-> "rec"]], [kind |-> "default-update-shared", prog |-> [x |-> "shared"]], [kind |-> "default-update-shared", prog |-> [x |-> "shared-value-source"]], [kind |-> "default-map", prog |-> [x |-> "map"]], [kind |-> "default-fallible", prog |-> [x |-> "fallible"]], [kind |-> "default-declared-inner", prog |-> [x |-> "ptrptr-update"]], [kind |-> "default-declared-inner", prog |-> [x |-> "value-to-ptr"]], [kind |-> "mapfunc-parent", prog |-> [x |-> "parent"]], [kind |-> "update-odd", prog |-> [x |-> "noncomparable-struct"]], [kind |-> "update-odd", prog |-> [x |-> "dot-pointer-source"]], [kind |-> "update-odd", prog |-> [x |-> "pointer-source-fault"]], [kind |-> "update-tnc", prog |-> [x |-> "target-noncomparable"]], [kind |-> "update-odd", prog |-> [x |-> "underlying-fallible-top"]], [kind |-> "update-odd", prog |-> [x |-> "ignoremissing-map-value"]], [kind |-> "mapfunc-wrap", prog |-> [x |-> "plain"]], [kind |-> "mapfunc-wrap", prog |-> [x |-> "using"]], [kind |-> "update-wrap", prog |-> [x |-> "plain"]], [kind |-> "update-wrap", prog |-> [x |-> "using"]]>>)
+ASSUME ndJsonSerialize(ScenOut, SetToSeq({FRec(p) : p \in Progs}) \o SetToSeq({ARec(a) : a \in AccProgs}) \o SetToSeq({XRec(q) : q \in XProgs}) \o SetToSeq({URec(p) : p \in UProgs}) \o SetToSeq({DRec(p) : p \in {q \in DProgs : DValid(q)}}) \o SetToSeq({[kind |-> "update-cat", prog |-> p] : p \in CatProgs}) \o <<[kind |-> "default-rebuild", prog |-> [x |-> "rebuild"]], [kind |-> "update-iface", prog |-> [x |-> "iface"]], [kind |-> "default-list", prog |-> [x |-> "list"]], [kind |-> "default-update-rec", prog |-> [x |-> "rec"]], [kind |-> "default-update-shared", prog |-> [x |-> "shared"]], [kind |-> "default-update-shared", prog |-> [x |-> "shared-value-source"]], [kind |-> "default-map", prog |-> [x |-> "map"]], [kind |-> "default-fallible", prog |-> [x |-> "fallible"]], [kind |-> "default-declared-inner", prog |-> [x |-> "ptrptr-update"]], [kind |-> "default-declared-inner", prog |-> [x |-> "value-to-ptr"]], [kind |-> "mapfunc-parent", prog |-> [x |-> "parent"]], [kind |-> "update-odd", prog |-> [x |-> "noncomparable-struct"]], [kind |-> "update-odd", prog |-> [x |-> "dot-pointer-source"]], [kind |-> "update-odd", prog |-> [x |-> "pointer-source-fault"]], [kind |-> "update-tnc", prog |-> [x |-> "target-noncomparable"]], [kind |-> "update-odd", prog |-> [x |-> "underlying-fallible-top"]], [kind |-> "update-odd", prog |-> [x |-> "ignoremissing-map-value"]], [kind |-> "update-odd", prog |-> [x |-> "default-unexported"]], [kind |-> "mapfunc-wrap", prog |-> [x |-> "plain"]], [kind |-> "mapfunc-wrap", prog |-> [x |-> "using"]], [kind |-> "update-wrap", prog |-> [x |-> "plain"]], [kind |-> "update-wrap", prog |-> [x |-> "using"]]>>)
 ASSUME PrintT(<<"exported", Cardinality(Progs), Cardinality(AccProgs), Cardinality(UProgs)>>)
 VARIABLE x
 Init == x = 0
